@@ -125,10 +125,14 @@ func (w *eworld) begin(kind string) *cbRec {
 	r := &cbRec{kind: kind, idx: idx, thread: vsched.Cur()}
 	w.cbs = append(w.cbs, r)
 	r.start = w.tick()
+	vsched.Logf("callback %s starts (t=%d)", r, r.start)
 	return r
 }
 
-func (w *eworld) finish(r *cbRec) { r.end = w.tick() }
+func (w *eworld) finish(r *cbRec) {
+	r.end = w.tick()
+	vsched.Logf("callback %s returns (t=%d)", r, r.end)
+}
 
 func (w *eworld) of(kind string) []*cbRec {
 	var out []*cbRec
